@@ -52,7 +52,7 @@ def _gen_cfg(rnd):
         "steps": rnd.choice([15, 40, 80]),
         "names": rnd.choice(["str", "int"]),
         "stream_seed": rnd.randrange(2 ** 31),
-        "model": rnd.choice(["linear", "linear", "river-labels", "sparse-labels", "river-bound"]),
+        "model": rnd.choice(["linear", "linear", "river-labels", "sparse-labels", "river-bound", "antisym"]),
         "tree_seed": rnd.choice([0, 0, 1, 42, rnd.randrange(1000)]),
     }
 
@@ -78,6 +78,9 @@ def junk(rnd):
         e.explain_one({"a": float(t), "b": 1.0}, 0.0)
     MultiValueTracker(WelfordTracker()).update({"x": 1})
     RiverWrapper(lambda x: "lab")({"a": 1})
+    # small NumPy arrays of assorted sizes created, filled and dropped: whatever the allocator hands out next is "dirty"
+    churn = [np.full(rnd.randrange(1, 9), rnd.uniform(-1e6, 1e6)) for _ in range(rnd.randrange(20, 80))]
+    del churn[::2]
     del keep[::2]
     gc.collect()
     time.sleep(0.005)
@@ -166,6 +169,16 @@ def scenario_gen(cfg, seed):
 
         def loss(y, p):    # noqa: F811
             return sum((1.0 if (lab == "pos") == (y > 0) else 0.0) * v + 0.1 * len(p) for lab, v in p.items())
+    if cfg.get("model") == "antisym":            # two outputs that always cancel (zero-sum normalisation path)
+
+        def model(x):      # noqa: F811
+            if not isinstance(x, dict):
+                return [model(xi) for xi in x]
+            s_ = sum(wi * x[n] for wi, n in zip(w, names))
+            return {"pos": s_, "neg": -s_}
+
+        def loss(y, p):    # noqa: F811
+            return (y - p.get("pos", 0.0)) ** 2 + 0.5 * (y - p.get("neg", 0.0)) ** 2
     if cfg.get("model") == "sparse-labels":      # top-1 style classifier: every output dict carries only the winning label
 
         def model(x):      # noqa: F811
